@@ -447,7 +447,7 @@ class _CallDef:
         self.place = blk.term.dest
 
 
-def eval_gated(body, pt, local, use_bb, leaf, use_idx=None, on_def=None):
+def eval_gated(body, pt, local, use_bb, leaf, use_idx=None, on_def=None, want_field=None):
     """Value of `local` as seen at (use_bb, use_idx) for one valuation of the inputs, in loop-free code: among the
     definitions of the local whose branch conditions hold under the valuation, the one latest in dominance order
     (gated single assignment).  Raises NotEvaluable when the choice is not determined."""
@@ -527,8 +527,27 @@ def eval_gated(body, pt, local, use_bb, leaf, use_idx=None, on_def=None):
         v = on_def(bb, i, s)
         if v is not None:
             return v
+    if want_field is not None:
+        # the caller asked for one component of a tuple assigned in several arms
+        if rv.k == "aggregate" and rv.agg == "tuple" and want_field < len(rv.ops):
+            op = rv.ops[want_field]
+            if op.is_const() and op.const_int() is not None:
+                return op.const_int()
+            if op.place is not None and not op.place.proj:
+                return eval_gated(body, pt, op.place.local, bb, leaf, i, on_def)
+            return eval_term(pt.at(bb, i).of_operand(op), leaf)
+        if rv.k == "use" and rv.op.place is not None and not rv.op.place.proj:
+            return eval_gated(body, pt, rv.op.place.local, bb, leaf, i, on_def, want_field)
+        raise NotEvaluable(("tuple field", local))
     if rv.k == "use" and rv.op.place is not None and not rv.op.place.proj:
         return eval_gated(body, pt, rv.op.place.local, bb, leaf, i, on_def)
+    # `(value, base) = if .. { (a, 0) } else { (b, 8) }; value + base`: a component of a tuple assigned in several arms
+    if rv.k == "use" and rv.op.place is not None and len(rv.op.place.proj) == 1 and rv.op.place.proj[0][0] == "field" and \
+            body.locals[rv.op.place.local].ty.k == "tuple":
+        try:
+            return eval_gated(body, pt, rv.op.place.local, bb, leaf, i, on_def, rv.op.place.proj[0][1])
+        except NotEvaluable:
+            pass
     # the payload of `x?` where x is a local holding a Result built in this body (a spliced helper): the value given to Ok(..)
     if rv.k == "use" and rv.op.place is not None and len(rv.op.place.proj) == 2 and rv.op.place.proj[0][0] == "downcast" and \
             rv.op.place.proj[0][2] == "Continue" and rv.op.place.proj[1][0] == "field":
